@@ -17,7 +17,8 @@ TITLE = "Field order is a deterministic function of declaration and order() spec
 RULE = ("Bounded-exhaustive: every dataclass of 1-3 (quick) / 1-4 (thorough) elements (k fields followed by n-k serialized "
         "methods), every assignment to each element of an ordering spec in {none, order(-1|0|1|999), order(after=x), order(before=x) "
         "for every other element x} without cycles, crossed with class-level overrides {none, order({elt: spec}) for one element, "
-        "order([permutation])} and, for n >= 2, a one-level inheritance split; Hypothesis adds 5-6 element classes.  Oracle: an "
+        "order([permutation])} and, for n >= 2, a one-level inheritance split with overrides on the base class alone and in conflict with "
+        "an override of the same field on the subclass (the most derived one wins, MRO); Hypothesis adds 5-6 element classes.  Oracle: an "
         "independent validity predicate of the documented rule over the key sequence of serialize, of `properties` in "
         "serialization_schema and (restricted to fields) in deserialization_schema, and of the GraphQL object type: the sequence is a "
         "permutation of the declared elements; un-attached elements are in ascending (order value, declaration index); every "
@@ -82,7 +83,16 @@ def enumerate_cases(tier):
                         if acyclic(effective_specs(c)):  # a class-level override can close a cycle with field-level specs
                             yield c
                     if k >= 2 and (h // 11) % 3 == 0:
-                        yield dict(base, split=1 + (h // 13) % (k - 1))
+                        split = 1 + (h // 13) % (k - 1)
+                        yield dict(base, split=split)
+                        # overrides on the base class, alone and in conflict with one on the subclass for the same field
+                        b0 = (h // 17) % split
+                        v1, v2 = VALUES[(h // 19) % 4], VALUES[(h // 23) % 4]
+                        for c in (dict(base, split=split, cls_base={"map": {str(b0): {"v": v1}}}),
+                                  dict(base, split=split, cls_base={"map": {str(b0): {"v": v1}}}, cls={"map": {str(b0): {"v": v2}}}),
+                                  dict(base, split=split, cls_base={"map": {str(b0): {"v": v1}}}, cls={"map": {str(b0): None, str(k - 1): {"v": v1}}})):
+                            if acyclic(effective_specs(c)):
+                                yield c
 
 
 @st.composite
@@ -104,8 +114,14 @@ def strategy_(draw, tier):
         case["cls"] = {"map": {str(i): {"v": draw(st.sampled_from(VALUES))}}}
     if k >= 2 and chance(draw, 0.3):
         case["split"] = draw(st.integers(1, k - 1))
+    if case["split"] and chance(draw, 0.5):
+        i = draw(st.integers(0, case["split"] - 1))
+        case["cls_base"] = {"map": {str(i): {"v": draw(st.sampled_from(VALUES))}}}
+        if chance(draw, 0.5):  # the subclass overrides the same field again
+            case["cls"] = {"map": {str(i): {"v": draw(st.sampled_from(VALUES))}}}
     if not acyclic(effective_specs(case)):
         case["cls"] = None
+        case.pop("cls_base", None)
     return case
 
 
@@ -156,6 +172,9 @@ def render(case) -> str:
                 items.append(f"{nm[int(key)]!r}: {e}")
             deco.append("@order({" + ", ".join(items) + "})")
     if split:
+        if case.get("cls_base"):
+            items = [f"{nm[int(key)]!r}: {spec_expr(sp, nm) if sp is not None else 'order(0)'}" for key, sp in case["cls_base"]["map"].items()]
+            lines.append("@order({" + ", ".join(items) + "})")
         lines += ["@dataclass", "class Base:"] + [field_line(i) for i in range(split)] + [""]
         lines += deco + ["@dataclass", "class C(Base):"] + [field_line(i) for i in range(split, k)]
         if split == k:
@@ -175,6 +194,9 @@ def describe(case):
 
 def effective_specs(case):
     specs = list(case["specs"])
+    # overrides declared on the base class are inherited; the most derived class wins for a field both override (MRO)
+    for key, sp in ((case.get("cls_base") or {}).get("map") or {}).items():
+        specs[int(key)] = sp if sp is not None else {"v": 0}
     cls = case.get("cls")
     if cls:
         if "list" in cls:
